@@ -239,14 +239,27 @@ def run(chk):
         raise Violation("float-step arange", f"{nodes[0]}: the number of points of arange with a float step is not guaranteed "
                         f"(e.g. arange(0, 1, 1/49) has 50 points)", f"exactly {count} points for every count and domain")
 
+    SHAPE_ONLY = ('expand_dims', 'reshape', '.reshape', '.flatten', 'squeeze', '.squeeze', 'atleast_1d', 'atleast_2d', '.astype',
+                  'array', 'asarray')
+
     def only_arange(value, what):
-        """the grid must be exactly an arange (possibly with an added axis), not an affine image of one"""
+        """the rule below reads the grid off an arange / linspace term: strip wrappers that only change the shape; any other
+        way of writing a grid (an affine image of an index range, a sliced range, ...) is outside the rule's vocabulary,
+        which is reported as such and never as a violation"""
         v = value
-        while isinstance(v, Sym) and v.op == 'getitem':
-            v = v.args[0]
+        while isinstance(v, Sym):
+            if v.op == 'getitem':
+                idx = v.args[1] if len(v.args) > 1 else None
+                items = idx if isinstance(idx, tuple) and not (idx and idx[0] == 'slice') else (idx,)
+                if not all(i is None or i is Ellipsis or i == ('slice', None, None, None) for i in items):
+                    raise Inconclusive(f"{what}: sliced grid {str(value)[:120]} (outside the rule's vocabulary)")
+                v = v.args[0]
+            elif v.op in SHAPE_ONLY:
+                v = v.args[0]
+            else:
+                break
         if not (isinstance(v, Sym) and v.op in ('arange', 'linspace')):
-            raise Violation(what + " form", f"{value}", "a regular grid arange(lower, upper, step) / linspace(lower, upper, count), "
-                                                        "possibly with an added axis")
+            raise Inconclusive(f"{what}: grid idiom outside the rule's vocabulary: {str(value)[:160]}")
 
     sites = [
         ("DataGeneratorODE.generate_time_data", lambda: G.ode(method='grid').generate_time_data(Sym('k0'))[1],
